@@ -69,6 +69,25 @@ RunHandles ==
          \/ (PollResult(t) # RPending /\ Poll(t, "PollNext")) \/ SubGet(t)
 LSpecHandles == LInit /\ [][Setup \/ Go \/ RunHandles]_lvars
 
+(* Race family: a fixed setup (owner clones 1 and 2, subscriber 3) and EVERY short program over a small     *)
+(* alphabet of calls; the driver runs each program many times with the threads released together, so that   *)
+(* every pair of calls gets many chances to overlap at instruction granularity (no pause point needed).     *)
+SetupRace ==
+    /\ phase = "setup" /\ UNCHANGED phase
+    /\ \/ (2 \notin owners /\ CloneOwner(1, 2))
+       \/ (2 \in owners /\ 3 \notin subs /\ Subscribe(1, 3))
+GoRace ==
+    /\ phase = "setup" /\ 2 \in owners /\ 3 \in subs /\ phase' = "run"
+    /\ hist' = Append(hist, H("Go", 0, 0, 0, 0))
+    /\ UNCHANGED core /\ UNCHANGED ret
+RunRace ==
+    /\ phase = "run" /\ UNCHANGED phase
+    /\ \/ Set("o", 1, ValFor(1)) \/ OwnerGet(1) \/ SetIfNotEq("o", 1, ValFor(1))
+       \/ Set("o", 2, ValFor(2)) \/ Update("o", 2, 1) \/ DropOwner(2)
+       \/ NextNow(3) \/ SubGet(3) \/ Reset(3)
+       \/ (PollResult(3) # RPending /\ Poll(3, "PollNext"))
+LSpecRace == LInit /\ [][SetupRace \/ GoRace \/ RunRace]_lvars
+
 BoundTree == Len(hist) <= Depth + 1
 PrintAtDepth == (Len(hist) = Depth + 1 /\ phase = "run") => PrintT(<<"B", ToJson(hist)>>)
 =============================================================================
